@@ -153,7 +153,10 @@ def key_of(inst, val, label):
     if not quoted:
         # one root cause (operators are recognised after expansion), keyed per channel; a matched file name containing a blank
         # is protected by cicada (it is re-tagged with double quotes), so that case has its own key and is not a known finding
-        return 'unquoted-result-reread:%s:%s%s' % (kind, inst['channel'], ':blank' if inst['channel'] == 'glob' and ' ' in val else '')
+        # the whole-word backquote form carries the tag "`" (not the empty tag): the checks that honour tags (trailing `&`) must
+        # leave it alone, so it is keyed separately from `$(..)` (seed C13-4 hid behind the shared capture key)
+        chan = 'capture-bq' if inst['channel'] == 'capture' and '`' in inst['form'] else inst['channel']
+        return 'unquoted-result-reread:%s:%s%s' % (kind, chan, ':blank' if inst['channel'] == 'glob' and ' ' in val else '')
     return '%s:%s:%s:%s:{%s}%s' % (kind, inst['channel'], 'dq', pos, ops, extra)
 
 def run_instance(prog, inst, tier, seed, deadline):
